@@ -10,7 +10,6 @@ THEOREMS = [
     "Cspuz.C17.C17_total_problem",
     "Cspuz.C17.C17_total_url",
     "Cspuz.C17.C17_total_puzzles",
-    "Cspuz.C17.C17_terminates",
 ]
 
 ALLOWED_ERR = ("ValueError",)
